@@ -323,6 +323,18 @@ class Report:
         self.coverage["discharged"] = len(obligations)
         self.coverage["property_theorems"] = thms
         self.broken = None
+        if self.tier == "thorough" and self.prop == "C13":
+            # once per thorough pass: independent re-check of every property file and what it depends on (coqchk -o)
+            with BuildLock():
+                rc, out = sh(["sh", str(VERIF / "tools" / "coqchk.sh")], cwd=VERIF, timeout=3200)
+            m = re.search(r"\* Axioms:\s*(.*?)\n\s*\n", out + "\n\n", flags=re.S)
+            axioms = " ".join(m.group(1).split()) if m else "?"
+            self.coverage["coqchk"] = {"cmd": "tools/coqchk.sh (coqchk -silent -o -Q coq Verif Verif.Properties.C01 ... C20)", "exit": rc, "axioms": axioms,
+                                       "summary": [l.strip() for l in out.splitlines() if l.strip().startswith("*")][:8]}
+            if rc != 0 or axioms != "<none>":
+                self.coverage["discharged"] = 0
+                self.broken = ("coqchk", out[-3000:])
+                return False
         return True
 
     # ---- finish
